@@ -297,6 +297,30 @@ pub fn panic_site(msg: &str) -> String {
     s
 }
 
+/// Class of a validator / diagnostic message for fingerprints: quoted names (`...`) and
+/// everything that is not a letter are dropped, so the class does not depend on the names,
+/// versions or indices of the input that produced it.
+pub fn msg_class(msg: &str) -> String {
+    let mut out = String::new();
+    let mut quoted = false;
+    for ch in msg.chars() {
+        if ch == '`' {
+            quoted = !quoted;
+            continue;
+        }
+        if quoted {
+            continue;
+        }
+        if ch.is_ascii_alphabetic() {
+            out.push(ch);
+        } else if !out.ends_with('-') && !out.is_empty() {
+            out.push('-');
+        }
+    }
+    let out: String = out.trim_end_matches('-').chars().take(48).collect();
+    out
+}
+
 pub fn ensure_dir(p: &Path) {
     let _ = std::fs::create_dir_all(p);
 }
